@@ -14,7 +14,7 @@ TECHNIQUE = ('Hypothesis-generated pairs with a hostile string alphabet x layout
              'character by character, projected on each side and parsed by an independent separator-tolerant JSON parser')
 RULE = ("Cases: mutated pairs of JSON-representable documents whose strings come from a hostile alphabet (quotes, "
         "backslashes, '->', '~~', '++', control characters, non-ASCII incl. the two combining marks themselves) x dict "
-        "strategy x join_lists x join_dict_items, rendered with JSONFormatter on Printer(ansi_color=True). Oracle: an "
+        "strategy x join_lists x join_dict_items; plus lists with several equal container siblings of which one changes, and mappings with several keys renamed at once (some to keys of equal length); rendered with JSONFormatter on Printer(ansi_color=True). Oracle: an "
         "ANSI state machine + combining-mark reader classifies every output character as kept / removed / inserted / "
         "arrow; the full stream is lexed into JSON tokens; projecting away the inserted (resp. removed) class and "
         "parsing with a comma-tolerant parser must give a document canonically equal to a (resp. b); change marks are "
@@ -59,11 +59,42 @@ def cases(draw, max_leaves):
 
 def jobs(tier):
     n, ml = (220, 10) if tier == 'quick' else (4000, 20)
-    return [{'n': n, 'max_leaves': ml, 'shard': s} for s in range(16)]
+    js = [{'kind': 'hostile', 'n': n, 'max_leaves': ml, 'shard': s} for s in range(16)]
+    js += [{'kind': 'dupsib', 'n': n // 4, 'shard': s} for s in range(16)]
+    js += [{'kind': 'renames', 'n': n // 4, 'shard': s} for s in range(16)]
+    return js
+
+
+@st.composite
+def rename_cases(draw):
+    """mappings in which several keys are renamed at once (some to keys of the same length) and values change size"""
+    ks = draw(st.lists(st.sampled_from(['user', 'name', 'id', 'ix', 'key', 'kez', 'a', 'email', 'e-mail', 'q\"k']), min_size=2, max_size=4, unique=True))
+    vals = st.one_of(st.integers(0, 99), st.sampled_from(['x', 'abc', 'abd', 'a longer string value', 'a longer string valuE', '']),
+                     st.lists(st.integers(0, 9), max_size=4))
+    a = {k: draw(vals) for k in ks}
+    b = {}
+    for k, v in a.items():
+        how = draw(st.integers(0, 4))
+        k2 = k
+        if how in (1, 2):
+            k2 = draw(st.sampled_from([k[:-1] + 'z', k[::-1], k + 's', 'n' + k[1:]]))
+        v2 = draw(vals) if how in (2, 3) else v
+        if k2 not in b:
+            b[k2] = v2
+    if draw(st.integers(0, 2)) == 0:
+        a, b = [a, 1], [b, 1]
+    return {'a': a, 'b': b, 'ds': draw(st.sampled_from(common.DS)), 'jl': draw(st.booleans()), 'jd': draw(st.booleans())}
 
 
 def run_job(job, seed, sink):
-    hyp_drive(cases(job['max_leaves']), job['n'], seed, sink)
+    if job.get('kind', 'hostile') == 'hostile':
+        hyp_drive(cases(job['max_leaves']), job['n'], seed, sink)
+    elif job['kind'] == 'dupsib':
+        strat = st.tuples(gen.dup_sibling_cases(), st.booleans(), st.booleans()).map(
+            lambda t: {'a': t[0]['a'], 'b': t[0]['b'], 'ds': t[0]['ds'], 'jl': t[1], 'jd': t[2]})
+        hyp_drive(strat, job['n'], seed, sink)
+    else:
+        hyp_drive(rename_cases(), job['n'], seed, sink)
 
 
 def valid(case):
